@@ -2,8 +2,11 @@
 
 Case kinds: `dp` / `vw` (list-level model: kept indices), `trk` (Track-level model: the Track object returned by
 douglas_peucker / visvalingam / simplify in its various call forms, and the input track's snapshot), `mode` (the dispatcher),
-`dist` / `area` (point-wise geometry), flag `wild` (coordinates outside any ENU frame: correspondence only)."""
-import itertools, math
+`dist` / `area` (point-wise geometry), flag `wild` (coordinates outside any ENU frame: correspondence only).
+Optional fields of a `trk` case: `nodata` (the track's `no_data_value` attribute; fixes whose coordinates equal it are the readers'
+placeholders), `coords` (`ENU` default, `GEO`, `ECEF`: the class of the positions), `src` (`obj` default: built with Obs/Track;
+`csv`: written to a file and read back with TrackReader.readFromFile), via `network` (Network.simplify on an edge geometry)."""
+import itertools, math, os, tempfile, datetime, shutil
 from fractions import Fraction
 from engine import Prop, fbits, bitsf, close, ratstr, parse_rat
 
@@ -56,6 +59,28 @@ def mirror_dist(x0, y0, x1, y1, x2, y2):
     return math.sqrt((x0 - x1 - t * (x2 - x1)) ** 2 + (y0 - y1 - t * (y2 - y1)) ** 2)
 
 
+def near(a, b, abs_):
+    """|a - b| <= 1e-9 x the larger magnitude + abs_ (engine.close has a floor of 1e-9, too coarse for distances of 1e-5)"""
+    a, b = float(a), float(b)
+    if a != a or b != b:
+        return a != a and b != b
+    if math.isinf(a) or math.isinf(b):
+        return a == b
+    return abs(a - b) <= 1e-9 * max(abs(a), abs(b)) + abs_
+
+
+def dist_slack(p):
+    """absolute slack for a distance: the projected point is rounded at the magnitude M of the coordinates (~1e-16 M); 1e-9 at most, as before"""
+    return min(1e-9, 1e-12 * max(1.0, max(abs(v) for v in p)))
+
+
+def area_slack(p):
+    """absolute slack for a triangle area: a coordinate difference carries ~1e-16 M and is multiplied by a difference of at most D; 1e-9 at most, as before"""
+    m = max(1.0, max(abs(v) for v in p))
+    d = max(abs(a - b) for a in p for b in p)
+    return min(1e-9, 1e-14 * m * d)
+
+
 def fv(v):
     """case value -> float/int: non-finite numbers are stored as strings in cases (JSON)"""
     return float(v) if isinstance(v, str) else v
@@ -76,10 +101,29 @@ def finite_case(case):
     return all(math.isfinite(fv(v)) for v in case["xs"] + case["ys"])
 
 
+SMALL_UNITS = [1e-6, 1e-5, 2e-5, 5e-5, 1e-4, 2.5e-4, 1e-3]      # small-scale tracks: kilometres, degrees, normalised 0..1 frames
+SMALL_ORIGINS = [(0.0, 0.0), (0.0, 0.0), (0.5, 0.5), (2.35, 48.85), (-0.25, 0.125), (1.0, 0.0)]
+NODATA_VALUES = [-999999, -999999, -999999, -9999, -1, 0, 1]
+OTHER_EDGE = {"xs": [0, 3, 6, 2, 0], "ys": [0, 4, 0, -1, 0], "uid": 1, "tid": 2, "base": None, "names": ["q"], "rows": [[1], [2], [3], [4], [5]]}
+TIME_FMT = "4Y-2M-2D 2h:2m:2s"
+
+
+def fmt_time(t):
+    return (datetime.datetime(1970, 1, 1) + datetime.timedelta(seconds=t)).strftime("%Y-%m-%d %H:%M:%S")
+
+
+def num_repr(v):
+    """a number of a case as a CSV field that float() reads back exactly"""
+    v = fv(v)
+    return repr(float(v)) if isinstance(v, float) else str(v)
+
+
+TINY_TOLS = [5e-324, 1e-320, 1e-300, 1e-200, 1.5e-162, 1e-100, 1e-30]
 HUGE_TOLS = [1e154, 1.3407807929942597e154, 1.4e154, 1e200, 1e308, 1.7976931348623157e308]   # eps*eps is infinite from 1.3407807929942597e154 on
 
 
 FINDING_AIRE = "vw-user-feature-named-aire"
+FINDING_ORPHAN = "vw-feature-values-without-dict-entry"
 ERRMAP = {"err:AnalyticalFeatureError": "err:AnalyticalFeatureError", "err:IndexError": "err:index",
           "err:NameError": "err:NameError", "err:RecursionError": "err:recursion", "err:KeyError": "err:key"}
 ALGO_OF_MODE = {"TV.Simplify.Algo.douglasPeucker": "douglas_peucker", "TV.Simplify.Algo.visvalingam": "visvalingam",
@@ -120,17 +164,29 @@ class P(Prop):
         (M, "TV.C16.simplify_dispatch", "simplify(track, tol, 1) is douglas_peucker, mode 2 is visvalingam, a mode outside 1..8 raises (NameError); modes 3..8 call other functions, outside the statement"),
         (M, "TV.C16.vw_sentinel_first_pass", "T6' (round 1's open statement, now proved): when no interior fix has an initial area below ARGMIN's initial minimum (+inf since 68863c7: the areas are inf or NaN), ARGMIN answers 0, NaN > eps is False, and the first pass removes the FIRST observation; any scalar type"),
         (M, "TV.C16.vw_all_below", "T11: when no triangle of the track has an area > eps*eps (in particular eps*eps = +inf: every tolerance from 1.34e154 up to the largest double, since b704eae) Visvalingam returns exactly the first and the last observation; under T6's hypothesis, any scalar type"),
-        (M, "TV.C16.vw_threshold", "T10 (threshold semantics, linear order): under T6's hypothesis every interior fix of Visvalingam's result spans with its two neighbours in the result a triangle of area > eps^2 (the '@aire' column stays consistent with the current neighbours; ARGMIN designates a smallest entry)"),
+        (M, "TV.C16.vw_any", "T12 (no hypothesis on the areas: infinite, NaN, mixed columns, every pass; any scalar type, the Float model included): Visvalingam's result is a sub-sequence of the input observations, the LAST observation is kept, a track of >= 2 observations keeps >= 2, and the loop stops by itself within len(track) passes"),
+        (M, "TV.C16.vw_track_any", "T12 on the Track object (well-formed feature table without '@aire', non-empty track, any areas): the call succeeds, the observations returned (feature rows included) are a sub-sequence, the last observation is kept, >= 2 observations of >= 2"),
+        (M, "TV.C16.simplify_nodata", "simplify() never reads track.no_data_value (set by the readers): the observations returned for a track carrying the attribute are those returned without it -- no placeholder fix is left out --, errors included; the result's own attribute is None after Douglas-Peucker (a new Track) and the input's after Visvalingam (the copy)"),
+        (M, "TV.C16.simplify_nodata_dp_correct", "the statement of C16 for Douglas-Peucker through simplify() on a reader-made track (ordered field, exact sqrt): whatever no_data_value and wherever the placeholder fixes (first and last included), a result exists, is a sub-sequence of ALL input observations with both ends, and every input observation is within eps of the returned polyline"),
+        (M, "TV.C16.net_simplify_each", "Network.simplify(tolerance, mode) is simplify() on every edge geometry in the edges' order: when it succeeds the i-th geometry is what simplify returns for the i-th input geometry"),
+        (M, "TV.C16.dp_tolerance_any_arithmetic", "T5' (robust tolerance; ANY arithmetic -- rounded, saturating --, only `<` a linear order, as on doubles away from NaN): if a fix whose COMPUTED distance to a chord is < eps is accepted for that chord (W, any predicate: e.g. true distance <= eps + rounding slack) and a vertex is accepted for the segments it ends, then every input fix is accepted for a segment between consecutive vertices of the OUTPUT: the recursion, split and concatenation add no error; T5 is the exact instance (example)"),
+        (M, "TV.C16.dp_any_tiebreak_tolerance_any_arithmetic", "T5' for every run with another choice among equally far fixes (the runs the correspondence check accepts)"),
+        (M, "TV.C16.dp_total_zero_laws", "T3' (termination under rounded arithmetic): on a total order whose arithmetic satisfies six zero laws (x-x=0, 0*x=0, 0+0=0, 0/x=0, x+0=x, sqrt 0=0: true of IEEE doubles on finite values; example: integers with truncating division and integer sqrt) distance_to_segment(A; A, B) computes 0 in either branch of `l == 0`, so douglas_peucker returns on every track for every eps > 0"),
+        (M, "TV.C16.dp_correct_any_arithmetic", "C16 for Douglas-Peucker under any arithmetic on a total order: given distance_to_segment(A; A, B) never > 0 (checked bit-exactly by the `dist` stream) the call returns, the result is a sub-sequence with both ends, every input fix is accepted (T5')"),
+        (M, "TV.C16.vw_threshold", "T10 (threshold semantics; ANY arithmetic on a linear order since this pass -- the areas are the COMPUTED ones, so it is a statement about the float run away from NaN): under T6's hypothesis every interior fix of Visvalingam's result spans with its two neighbours in the result a triangle of area > eps^2 (the '@aire' column stays consistent with the current neighbours; ARGMIN designates a smallest entry)"),
     ]
     partial = []
     open_statements = [
-        "IEEE rounding: T3 (field form), T4 and T5 are over a linearly ordered field with an exact sqrt; on floats the tolerance is sampled by the transfer "
-        "check with relative slack 1e-9 on eps plus absolute slack 1e-13 x (largest |coordinate|) (T1, T2, T6 and the scalar-independent T3 do apply to the Float model as they assume nothing about the scalar)",
-        "Visvalingam beyond the FIRST pass when areas are infinite or NaN, i.e. not below ARGMIN's initial minimum +inf (coordinates ~1e154 and more, not ENU tracks): "
-        "T6' proves that the first pass removes the first fix when no area is below the sentinel; mixed columns and the later passes are only compared "
-        "with the model (stream `wild`)",
-        "T10 (vw_threshold) is proved over a linear order; on floats the areas are rounded, so an area within an ulp of eps^2 may fall on either side "
-        "(model and code agree bit for bit there: correspondence)",
+        "IEEE rounding: T3 (field form), T4 and T5 are over a linearly ordered field with an exact sqrt. T5' (dp_tolerance_any_arithmetic) reduces the tolerance on floats to ONE "
+        "pointwise statement about distance_to_segment -- `computed distance < eps  =>  true distance <= eps(1+1e-9) + 1e-13 M` -- which is not proved (an error analysis of the "
+        "formula in IEEE arithmetic) but sampled: by the `dist` stream (|computed - exact| <= 1e-9 relative + 1e-12 M) and by the transfer check on whole tracks with that slack "
+        "(T1, T2, T6, T12 and the scalar-independent T3 do apply to the Float model as they assume nothing about the scalar; T5', T10 assume only a total order)",
+        "Visvalingam when areas are infinite or NaN, i.e. not below ARGMIN's initial minimum +inf (coordinates ~1e154 and more, not ENU tracks): T12 (vw_any) now proves, "
+        "for every column and every pass, sub-sequence, last observation kept, >= 2 kept and termination; T6' proves that the first pass removes the FIRST fix when no "
+        "area is below the sentinel. Still open: an input-level characterisation of when the first observation survives a MIXED column (some areas finite, some not) -- "
+        "compared with the model only (stream `wild`)",
+        "T10 (vw_threshold) now holds for any arithmetic on a linear order, i.e. for the COMPUTED areas and the computed eps*eps; what it cannot say is how a computed "
+        "area relates to the exact one: an exact area within an ulp of eps^2 may fall on either side (model and code agree bit for bit there: correspondence)",
     ]
     modelled = ("util/geometry.py distance_to_segment (l == 0 branch, normalised scalar product, clamp to the segment's box), "
                 "triangle_area, aire_visval; algo/simplification.py douglas_peucker (n <= 2 base case, first farthest fix by strict >, "
@@ -141,10 +197,20 @@ class P(Prop):
                 "Track(L) / Track([L[0], L[n-1]], uid, tid, base) / Track(L[0:imax], ...) + Track(L[imax:n], ...) with Track.__add__'s "
                 "rule for uid/tid/base and the feature dict (C04's sameNames); visvalingam's track.copy(), addAnalyticalFeature(aire_visval, '@aire') "
                 "(createAnalyticalFeature when new: column len(dico), 0.0; an empty track raises), setObsAnalyticalFeature('@aire', 0, nan), "
-                "the loop on that column of the feature rows (getObsAnalyticalFeature, C04's removeObs), removeAnalyticalFeature('@aire') with its index shift")
+                "the loop on that column of the feature rows (getObsAnalyticalFeature, C04's removeObs), removeAnalyticalFeature('@aire') with its index shift. "
+                "Attributes and entry points (Model/SimplifyTrack.lean, end): the Track attribute no_data_value that TrackReader.readFromFile sets (simplifyN: never read by "
+                "simplify/douglas_peucker/visvalingam -- removeNoDataValues is not on the path --, None on a Douglas-Peucker result through Track.__init__, the input's on "
+                "Visvalingam's copy); core/network.py Network.simplify (netSimplify: simplify on every edge geometry in insertion order, first exception ends the call). "
+                "The positions' class (ENUCoords / GeoCoords / ECEFCoords) only matters through getX()/getY(), the first two stored components for all three (harness: the "
+                "class of the returned positions is the input's). The tolerant ENUCoords.__eq__ (1e-4 per axis) is NOT on the path: the model compares coordinates exactly")
     trusted = [               "Track.copy is a deep copy (the model is functional: it cannot write its input; the harness compares a full snapshot of the input "
                "track before and after every call: observations' identity, positions, times, feature rows, feature dict, uid/tid/base)",
                "z coordinates and timestamps are not in the model (the algorithms never read them); the harness checks they travel unchanged",
+               "a track made by TrackReader.readFromFile is taken as the reader made it (what the reader does with blank / NA fields is C13's model, TV.TextIO): the harness "
+               "writes the file, reads it back, checks that the track is the one the case describes (placeholder fixes at no_data_value, no_data_value attribute, tid = file name, "
+               "features through read_all) and simplifies that object",
+               "one Obs object occurring twice in a track (track + track, addObs(track[0])) is outside the model, which is on values: Visvalingam stores its areas in the Obs "
+               "objects, so two positions then share one '@aire' value (findings/C16.json, class vw-shared-obs-object; not generated)",
                "feature rows are as long as the feature dict says (C01's invariant)",
                "CPython's recursion limit (1000 frames) is outside the model: douglas_peucker recurses once per split level, T3 proves the depth is at most len(track), "
                "and a track of more than ~1000 fixes shaped so that every split peels one fix raises RecursionError (findings/C16.json, class dp-recursion-depth; "
@@ -163,6 +229,14 @@ class P(Prop):
             "the Track-level model: kept observations, positions, feature rows, feature dict and column indices, uid/tid/base; the input track's full snapshot must be "
             "unchanged. The oracle additionally requires every returned observation to carry the feature values of the input observation and the input to be left "
             "unmodified. All Track objects of 2 and 3 fixes on {0,1}^2 are enumerated. [stream `mode`] which function simplify() calls for modes -2..11. "
+            "[attributes, all on the `trk` stream] a quarter of the tracks carry no_data_value (-999999, -9999, -1, 0, 1 or a coordinate of the track), 70 % of those with 1-3 "
+            "placeholder fixes (x = y = z = the value) as first / last / interior fix; 12 % have GeoCoords or ECEFCoords positions (oracle: every clause but the planar tolerance); "
+            "12 % are written to a CSV file (NA for the placeholders, optional U column, features through read_all) and read back with TrackReader.readFromFile; entry point "
+            "Network.simplify on a network whose first or second edge has the track as geometry; observations carrying feature values without dict entry (Track(other.getObsList()), "
+            "i.e. a Douglas-Peucker result as input), Douglas-Peucker always, Visvalingam when the finding is listed. [small units, streams dp/vw/trk] lattices of unit 1e-6..1e-3 "
+            "around (0,0), (0.5,0.5), (2.35,48.85), ..., with or without a fix a unit away (differences below / around the 1e-4 of the tolerant ENUCoords.__eq__), long shapes scaled "
+            "by 1e-6..1e-3, tolerances = fractions / small multiples of the smallest coordinate difference and 1e-7..1e-3; 1 % of the tolerances are far below any extent "
+            "(5e-324..1e-30: eps*eps underflows to 0 in Visvalingam); 6 % of the `trk` calls pass the tolerance as numpy.float64. [stream `mode`] also mode given as float / bool. "
             "[stream `wild`] coordinates outside any ENU frame (1e101..1e308, inf, NaN, denormals; squares overflow, areas reach ARGMIN's sentinel): the oracle's "
             "domain is finite coordinates up to 1e100 (ENU metres), beyond it only model and code are compared. "
             "non-trivial = at least 3 fixes (a fix can be dropped)")
@@ -177,6 +251,13 @@ class P(Prop):
         from tracklib.algo import simplification as S
         from tracklib.util import geometry as G
         self.Obs, self.ENU, self.T, self.Track, self.S, self.G = Obs, ENUCoords, ObsTime, Track, S, G
+        from tracklib.core.obs_coords import GeoCoords, ECEFCoords
+        from tracklib.io.track_reader import TrackReader
+        from tracklib.io.track_format import TrackFormat
+        from tracklib.core import network as NW
+        self.GEO, self.ECEF, self.Reader, self.Format, self.NW = GeoCoords, ECEFCoords, TrackReader, TrackFormat, NW
+        import numpy
+        self.np = numpy
         self.tracklib = tracklib
         self._listed = None
 
@@ -195,7 +276,9 @@ class P(Prop):
 
     # ---------------------------------------------------------------- generators
     def exhaustive_scopes(self, tier):
-        extra = ["simplify(track, tol, mode) for every mode in -2..11: which function the dispatcher calls",
+        extra = ["every track of 3 fixes on the lattice {0, 3e-5, 6e-5}^2 (all differences below the 1e-4 of ENUCoords.__eq__) x tolerances "
+                 "{1.5e-5, 3e-5, 4.5e-5} x {Douglas-Peucker, Visvalingam} through simplify()",
+                 "simplify(track, tol, mode) for every mode in -2..11: which function the dispatcher calls",
                  "every track of 2 and of 3 fixes on the lattice {0,1}^2 as a Track object (two features, uid/tid/base set) x tolerances {0.5, 1} x "
                  "{Douglas-Peucker, Visvalingam}: positions, feature rows, feature dict, uid/tid/base of the result, input left untouched"]
         if tier == "thorough":
@@ -205,13 +288,23 @@ class P(Prop):
                 "distance_to_segment for every point/segment on the lattice {0,1,2}^2 (9^3 triples, degenerate segments included)"] + extra
 
     def rand_track(self, rng):
-        style = rng.choice(["lattice"] * 8 + ["quarter", "float"])
+        style = rng.choice(["lattice"] * 8 + ["quarter", "float"] + ["small"] * 2)
         n = rng.choice([1, 2, 3, 3, 4, 4, 5, 5, 6, 6, 7, 8, 9])
         side = rng.choice([2, 2, 3, 3, 4, 5, 6])
         if style == "lattice":
             pt = lambda: (rng.randrange(side), rng.randrange(side))
         elif style == "quarter":
             pt = lambda: (rng.randrange(4 * side) / 4.0, rng.randrange(4 * side) / 4.0)
+        elif style == "small":
+            # coordinates whose differences are 1e-6 .. 1e-3 (kilometres, degrees, normalised frames): below / around the 1e-4 of
+            # the tolerant ENUCoords.__eq__; lattice of unit h around an origin, sometimes with a far fix (unit-square diagonal)
+            h = rng.choice(SMALL_UNITS)
+            ox, oy = rng.choice(SMALL_ORIGINS)
+            far = rng.random() < 0.3
+            def pt():
+                if far and rng.random() < 0.25:
+                    return (ox + rng.choice([0.25, 0.5, 1.0]), oy + rng.choice([0.0, 0.25, 1.0]))
+                return (ox + rng.randrange(side) * h, oy + rng.randrange(side) * h)
         else:
             pt = lambda: (round(rng.uniform(-100, 100), 2), round(rng.uniform(-100, 100), 2))
         pts = [pt()]
@@ -231,10 +324,17 @@ class P(Prop):
             pts[-1] = pts[0]
         return [p[0] for p in pts], [p[1] for p in pts], style
 
-    def rand_tol(self, rng, xs, ys):
+    def rand_tol(self, rng, xs, ys, style=None):
         r = rng.random()
         n = len(xs)
-        if r < 0.55:
+        if style == "small" and r < 0.7:
+            # tolerances at the scale of the track: fractions / small multiples of its smallest non-zero coordinate difference
+            ds = sorted(set(abs(a - b) for l in (xs, ys) for a in l for b in l if a != b))
+            u = ds[0] if ds else 1e-5
+            t = u * rng.choice([0.05, 0.1, 0.3, 0.5, 0.7, 0.75, 1, 1.25, 1.5, 2, 3])
+            if r < 0.15:
+                t = float("%.3g" % (10 ** rng.uniform(-7, -3)))
+        elif r < 0.55:
             t = rng.choice(TOLS)
         elif r < 0.75 and n >= 3:                          # boundary: the float distance of a fix to some chord of the track
             i = rng.randrange(n)
@@ -243,8 +343,10 @@ class P(Prop):
             t = mirror_dist(float(xs[i]), float(ys[i]), float(xs[a]), float(ys[a]), float(xs[b]), float(ys[b]))
             if not t > 0:
                 t = rng.choice(TOLS)
-        elif r < 0.97:
+        elif r < 0.96:
             t = float("%.3g" % (10 ** rng.uniform(-6, 6)))
+        elif r < 0.97:
+            t = rng.choice(TINY_TOLS)                      # far below any extent, down to the smallest positive double: eps*eps = 0 in Visvalingam
         else:
             t = rng.choice(HUGE_TOLS)                      # far above any extent, up to the largest double: eps*eps = inf in Visvalingam
         return t
@@ -285,7 +387,13 @@ class P(Prop):
                 pts.append((float(i), h if i % 2 else 0.0))
         if rng.random() < 0.15:
             pts[-1] = pts[0]
-        return [p[0] for p in pts], [p[1] for p in pts], "long-" + shape
+        if rng.random() < 0.15:
+            # the same shape in small units (a track in kilometres / degrees / a normalised frame), around an origin
+            sc = rng.choice([1e-6, 1e-5, 1e-4, 1e-3])
+            ox, oy = rng.choice(SMALL_ORIGINS)
+            pts = [(ox + p[0] * sc, oy + p[1] * sc) for p in pts]
+            return [p[0] for p in pts], [p[1] for p in pts], "long-small-" + shape, sc
+        return [p[0] for p in pts], [p[1] for p in pts], "long-" + shape, 1
 
     def rand_table(self, rng, n):
         """feature names and one row per fix; the first feature (when any) is the fix's index"""
@@ -304,21 +412,21 @@ class P(Prop):
         return list(names), rows
 
     def rand_via(self, rng, algo):
-        v = ["direct", "direct", "simplify", "simplify", "simplify_kw", "toplevel"]
+        v = ["direct", "direct", "simplify", "simplify", "simplify", "simplify_kw", "toplevel", "network"]
         if algo == "dp":
             v.append("simplify_default")
         return rng.choice(v)
 
     def rand_trk(self, rng, long=False):
         if long:
-            xs, ys, style = self.long_track(rng)
+            xs, ys, style, sc = self.long_track(rng)
             r = rng.random()
-            tol = rng.choice([0.01, 0.05, 0.1, 0.3, 0.5, 1, 1.5, 2.5, 5, 10.0, 25, 100]) if r < 0.8 else self.rand_tol(rng, xs, ys)
+            tol = rng.choice([0.01, 0.05, 0.1, 0.3, 0.5, 1, 1.5, 2.5, 5, 10.0, 25, 100]) * sc if r < 0.8 else self.rand_tol(rng, xs, ys)
         else:
             xs, ys, style = self.rand_track(rng)
             if rng.random() < 0.03:
                 xs, ys = [], []
-            tol = self.rand_tol(rng, xs, ys)
+            tol = self.rand_tol(rng, xs, ys, style)
         n = len(xs)
         algo = rng.choice(["dp", "vw"])
         names, rows = self.rand_table(rng, n)
@@ -342,6 +450,55 @@ class P(Prop):
                 c["ts"] = [500] * n
             else:
                 c["ts"] = [rng.randrange(0, 100000) for _ in range(n)]
+        self.rand_attrs(rng, c)
+        if rng.random() < 0.06:
+            c["tol_form"] = "np64"                          # the tolerance arrives as a numpy.float64 (computed by the caller with numpy)
+        if names and c.get("src") != "csv" and rng.random() < 0.08 and (algo == "dp" or self.listed(FINDING_ORPHAN)):
+            # observations that carry feature values the track's dict does not name: Track(other.getObsList()), which is also what
+            # douglas_peucker itself returns (so: Visvalingam applied to a Douglas-Peucker result)
+            c["orphan"] = True
+            if algo == "vw":
+                c.pop("ts", None)                       # the first feature value does not survive (the finding): identify by timestamp
+        return c
+
+    def rand_attrs(self, rng, c):
+        """attributes of the Track that simplification must not be sensitive to: `no_data_value` (with or without placeholder fixes at
+        that value, first / last / interior), the class of the positions, a track made by the CSV reader, Network.simplify"""
+        n = len(c["xs"])
+        if c["via"] == "network":
+            c["net_pos"] = rng.choice([0, 0, 1])              # number of other edges simplified before this one
+        r = rng.random()
+        if r < 0.25:
+            nd = rng.choice(NODATA_VALUES)
+            if n and rng.random() < 0.15:
+                nd = rng.choice(c["xs"] + c["ys"])          # a legitimate coordinate of the track happens to be the no-data value
+                if isinstance(nd, str) or nd != nd:
+                    nd = -999999
+            c["nodata"] = nd
+            if n and rng.random() < 0.7:
+                zs = list(c.get("zs") or [0] * n)
+                where = set()
+                for _ in range(rng.choice([1, 1, 1, 2, 3])):
+                    where.add(rng.choice([0, n - 1, n - 1, rng.randrange(n)]))
+                for i in where:
+                    c["xs"][i] = c["ys"][i] = zs[i] = nd
+                c["zs"] = zs
+        if rng.random() < 0.12:
+            c["coords"] = rng.choice(["GEO", "ECEF"])
+        if n >= 1 and rng.random() < 0.12 and min(c.get("ts") or [0]) >= 0 and all(m != "@aire" for m in c["names"]):
+            nd = c.get("nodata", -999999)
+            ok = isinstance(nd, int) and not isinstance(nd, bool)
+            for i in range(n):                                # the reader turns a line whose int(E) or int(N) is the value into a placeholder
+                x, y = fv(c["xs"][i]), fv(c["ys"][i])
+                z = (c.get("zs") or [0] * n)[i]
+                if x == nd and y == nd and z == nd:
+                    continue
+                if int(x) == nd or int(y) == nd:
+                    ok = False
+            if ok:
+                c["src"] = "csv"
+                c["nodata"] = nd
+                c["uid"], c["base"] = 0, None
         return c
 
     def wild_case(self, rng):
@@ -366,6 +523,9 @@ class P(Prop):
         out = []
         for m in range(-2, 12):
             out.append({"kind": "mode", "mode": m})
+            out.append({"kind": "mode", "mode": m, "form": "float"})     # `mode == 1` is numeric equality: 1.0, True select like 1
+        out.append({"kind": "mode", "mode": 0, "form": "bool"})
+        out.append({"kind": "mode", "mode": 1, "form": "bool"})
         lat2 = [(x, y) for x in range(2) for y in range(2)]
         for n in (2, 3):
             for pts in itertools.product(lat2, repeat=n):
@@ -374,9 +534,9 @@ class P(Prop):
                         out.append({"kind": "trk", "algo": algo, "xs": [q[0] for q in pts], "ys": [q[1] for q in pts], "tol": tol,
                                     "uid": 7, "tid": 9, "base": 5, "names": ["tag", "w"], "rows": [[i, 2.5] for i in range(n)],
                                     "via": "direct", "pre": [], "style": "lattice"})
-        for _ in range(6000 if tier == "quick" else 60000):
+        for _ in range(8000 if tier == "quick" else 60000):
             out.append(self.rand_trk(rng))
-        for _ in range(1500 if tier == "quick" else 15000):
+        for _ in range(2500 if tier == "quick" else 15000):
             out.append(self.rand_trk(rng, long=True))
         for _ in range(1500 if tier == "quick" else 10000):
             out.append(self.wild_case(rng))
@@ -395,6 +555,12 @@ class P(Prop):
                 for tol in (0.5, 1, 1.5):
                     for algo in ("dp", "vw"):
                         out.append({"kind": algo, "xs": xs, "ys": ys, "tol": tol, "via": "direct", "af": False})
+        h = 3e-5                                             # the same lattice in small units: every difference is below ENUCoords' 1e-4
+        for pts in itertools.product(lat, repeat=3):
+            xs, ys = [p[0] * h for p in pts], [p[1] * h for p in pts]
+            for tol in (0.5 * h, h, 1.5 * h):
+                for algo in ("dp", "vw"):
+                    out.append({"kind": algo, "xs": xs, "ys": ys, "tol": tol, "via": "simplify", "af": False})
         for p in lat:
             for a in lat:
                 for b in lat:
@@ -402,12 +568,16 @@ class P(Prop):
         nrand = 20000 if tier == "quick" else 150000
         for _ in range(nrand):
             xs, ys, style = self.rand_track(rng)
-            tol = self.rand_tol(rng, xs, ys)
+            tol = self.rand_tol(rng, xs, ys, style)
             out.append({"kind": rng.choice(["dp", "dp", "vw"]), "xs": xs, "ys": ys, "tol": tol,
                         "via": rng.choice(["simplify", "direct"]), "af": rng.random() < 0.2})
         for _ in range(3000 if tier == "quick" else 30000):
             r = rng.random()
-            if r < 0.5:
+            if r < 0.15:                                     # small units around an origin (differences 1e-6 .. 1e-3)
+                h = rng.choice(SMALL_UNITS)
+                ox, oy = rng.choice(SMALL_ORIGINS)
+                v = [(ox if j % 2 == 0 else oy) + rng.randrange(-6, 7) * h for j in range(6)]
+            elif r < 0.5:
                 v = [rng.randrange(-4, 5) for _ in range(6)]
             elif r < 0.75:
                 v = [rng.randrange(-16, 17) / 4.0 for _ in range(6)]
@@ -439,7 +609,15 @@ class P(Prop):
             t["revisit"] = len(set(zip(xs, ys))) < n
             t["collinear_run"] = collinear_run(xs, ys)
             t["tol_decade"] = int(math.floor(math.log10(float(case["tol"])))) if case["tol"] > 0 else "<=0"
+            ds = [abs(fv(a) - fv(b)) for l in (xs, ys) for a, b in zip(l, l[1:]) if a != b]
+            t["small_steps"] = bool(ds) and min(ds) < 1e-3
         if k == "trk":
+            t["nodata"] = "none" if case.get("nodata") is None else (
+                "placeholders" if any(x == case["nodata"] for x in case["xs"]) else "set")
+            t["coords"] = case.get("coords", "ENU")
+            t["src"] = case.get("src", "obj")
+            t["orphan_rows"] = bool(case.get("orphan"))
+            t["tol_form"] = case.get("tol_form") or "python"
             t["algo"] = case["algo"]
             t["features"] = len(case["names"])
             t["pre_calls"] = len(case.get("pre", []))
@@ -467,11 +645,53 @@ class P(Prop):
     def mk_trk(self, case):
         zs = case.get("zs") or [0] * len(case["xs"])
         ts = case.get("ts") or list(range(len(case["xs"])))
-        obs = [self.Obs(self.ENU(fv(x), fv(y), z), self.T.readUnixTime(t)) for x, y, z, t in zip(case["xs"], case["ys"], zs, ts)]
+        if case.get("src") == "csv":
+            return self.mk_trk_csv(case, zs, ts)
+        C = {"ENU": self.ENU, "GEO": self.GEO, "ECEF": self.ECEF}[case.get("coords", "ENU")]
+        obs = [self.Obs(C(fv(x), fv(y), z), self.T.readUnixTime(t)) for x, y, z, t in zip(case["xs"], case["ys"], zs, ts)]
         tr = self.Track(obs, case["uid"], case["tid"], case["base"])
         if obs:
             for j, name in enumerate(case["names"]):
                 tr.createAnalyticalFeature(name, [fv(r[j]) for r in case["rows"]])
+        if case.get("orphan"):
+            tr = self.Track(tr.getObsList(), case["uid"], case["tid"], case["base"])   # the observations keep their values, the dict is empty
+        if case.get("nodata") is not None:
+            tr.no_data_value = case["nodata"]
+        return tr
+
+    def mk_trk_csv(self, case, zs, ts):
+        """the track as TrackReader.readFromFile makes it from a CSV file: a line whose E and N fields are `NA` becomes a fix at
+        (no_data, no_data, no_data); track.no_data_value is the format's; tid is the file's base name; features through read_all"""
+        nd = case["nodata"]
+        names = case["names"]
+        has_u = bool(case.get("zs"))
+        head = ["T", "E", "N"] + (["U"] if has_u else []) + list(names)
+        lines = [",".join(head)]
+        for i in range(len(case["xs"])):
+            x, y, z = case["xs"][i], case["ys"][i], zs[i]
+            ph = (x == nd and y == nd and z == nd)
+            f = [fmt_time(ts[i]), "NA" if ph else num_repr(x), "NA" if ph else num_repr(y)]
+            if has_u:
+                f.append("0" if ph else num_repr(z))
+            f += [num_repr(v) for v in (case["rows"][i] if names else [])]
+            lines.append(",".join(f))
+        d = tempfile.mkdtemp(prefix="c16_")
+        try:
+            path = os.path.join(d, "trk%d.csv" % case["tid"])
+            with open(path, "w") as fh:
+                fh.write("\n".join(lines) + "\n")
+            par = {"ext": "CSV", "id_T": 0, "id_E": 1, "id_N": 2, "header": 1, "separator": ",", "srid": case.get("coords", "ENU"),
+                   "time_fmt": TIME_FMT, "no_data_value": nd, "read_all": bool(names)}
+            if has_u:
+                par["id_U"] = 3
+            tr = self.Reader.readFromFile(path, self.Format(par))
+        finally:
+            shutil.rmtree(d, ignore_errors=True)
+        # the case describes the track the reader is expected to make (C13's business): anything else is not an input of this check
+        got = [[o.position.getX(), o.position.getY(), o.position.getZ(), o.timestamp.toAbsTime()] for o in tr.getObsList()]
+        want = [[fv(x), fv(y), z, t] for x, y, z, t in zip(case["xs"], case["ys"], zs, ts)]
+        if not same_rows(got, want) or tr.no_data_value != nd or tr.getListAnalyticalFeatures() != list(names):
+            raise RuntimeError("the CSV reader did not produce the track described by the case: %s" % (got,))
         return tr
 
     def snapshot(self, tr):
@@ -493,9 +713,24 @@ class P(Prop):
             return "feature rows: %s -> %s" % (a["rows"], b["rows"])
         return None
 
-    def call(self, tr, algo, tol, via):
+    def norm_tid(self, case, tid):
+        """a track made by the reader has the file's base name `trk<tid>` (a string) as tid"""
+        if case.get("src") == "csv" and isinstance(tid, str) and tid == "trk%d" % case["tid"]:
+            return case["tid"]
+        return tid
+
+    def call(self, tr, algo, tol, via, net_pos=0):
         S = self.S
         mode = S.MODE_SIMPLIFY_DOUGLAS_PEUCKER if algo == "dp" else S.MODE_SIMPLIFY_VISVALINGAM
+        if via == "network":
+            # Network.simplify(tolerance, mode): every edge geometry is replaced by simplify(geometry, tolerance, mode)
+            NW = self.NW
+            net = NW.Network()
+            geoms = [self.mk_trk(OTHER_EDGE) for _ in range(net_pos)] + [tr]
+            for i, g in enumerate(geoms):
+                net.addEdge(NW.Edge(i, g), NW.Node(2 * i, self.ENU(i, 0, 0)), NW.Node(2 * i + 1, self.ENU(i, 1, 0)))
+            net.simplify(tol, mode)
+            return net.EDGES[net_pos].geom
         if via == "simplify":
             return S.simplify(tr, tol, mode)
         if via == "simplify_kw":
@@ -517,7 +752,9 @@ class P(Prop):
                 setattr(S, n, (lambda nn: (lambda *a, **k: called.append(nn)))(n))
             tr = self.Track([self.Obs(self.ENU(0, 0, 0), self.T.readUnixTime(0)), self.Obs(self.ENU(1, 1, 0), self.T.readUnixTime(1))])
             try:
-                S.simplify(tr, 1.0, case["mode"], False)
+                m = case["mode"]
+                m = float(m) if case.get("form") == "float" else (bool(m) if case.get("form") == "bool" else m)
+                S.simplify(tr, 1.0, m, False)
             except NameError:
                 called.append("err:NameError")
         finally:
@@ -562,14 +799,14 @@ class P(Prop):
                 target = tr
             else:
                 if other is None:
-                    other = self.mk_trk({"xs": [0, 3, 6, 2, 0], "ys": [0, 4, 0, -1, 0], "uid": 1, "tid": 2, "base": None,
-                                         "names": ["q"], "rows": [[1], [2], [3], [4], [5]]})
+                    other = self.mk_trk(OTHER_EDGE)
                 target = other
             try:
                 self.call(target, a, t, "direct")
             except Exception:
                 pass                                          # an earlier call that fails is the business of its own case
-        res = self.call(tr, case["algo"], case["tol"], case["via"])
+        tol = self.np.float64(case["tol"]) if case.get("tol_form") == "np64" else case["tol"]
+        res = self.call(tr, case["algo"], tol, case["via"], case.get("net_pos", 0))
         after = self.snapshot(tr)
         out = self.snapshot(res)
         inp_ids = set(before["ids"])
@@ -580,7 +817,8 @@ class P(Prop):
             kept = [int(round(t)) for t in out["t"]]
         return {"kept": kept, "t": out["t"], "xyz": out["xyz"], "rows": out["rows"],
                 "names": list(out["dico"].keys()), "cols": list(out["dico"].values()),
-                "uid": out["uid"], "tid": out["tid"], "base": base if (base is None or isinstance(base, int)) else repr(base),
+                "uid": out["uid"], "tid": self.norm_tid(case, out["tid"]), "base": base if (base is None or isinstance(base, int)) else repr(base),
+                "nodata": out["nodata"], "classes": sorted(set(type(o.position).__name__ for o in res.getObsList())),
                 "input_changed": self.snap_diff(before, after),
                 "shares_obs": bool(out["ids"]) and all(i in inp_ids for i in out["ids"])}
 
@@ -598,10 +836,22 @@ class P(Prop):
         if k == "trk":
             algo = case["algo"]
             rows = ";".join(fl(r) for r in case["rows"]) if (case["rows"] and case["names"]) else "_"
-            line = "C16.trk %d %s %s %s %d %d %s %s %s %s" % (
-                1 if algo == "dp" else 2, fbits(case["tol"]), fl(case["xs"]), fl(case["ys"]), case["uid"], case["tid"],
-                "_" if case["base"] is None else str(case["base"]), ",".join(case["names"]) if case["names"] else "_",
-                ",".join(str(j) for j in range(len(case["names"]))) if case["names"] else "_", rows)
+            def geom(c, rows):
+                named = c["names"] and not c.get("orphan")
+                return "%s %s %d %d %s %s %s %s" % (
+                    fl(c["xs"]), fl(c["ys"]), c["uid"], c["tid"],
+                    "_" if c["base"] is None else str(c["base"]), ",".join(c["names"]) if named else "_",
+                    ",".join(str(j) for j in range(len(c["names"]))) if named else "_", rows)
+            nd = "_" if case.get("nodata") is None else fbits(case["nodata"])
+            head = "%d %s" % (1 if algo == "dp" else 2, fbits(case["tol"]))
+            if case["via"] == "network":                    # Network.simplify: the model of the loop over the edges (netSimplify)
+                k = case.get("net_pos", 0)
+                other = geom(OTHER_EDGE, ";".join(fl(r) for r in OTHER_EDGE["rows"])) + " _"
+                line = "C16.net %s %d %s" % (head, k + 1, " ".join([other] * k + [geom(case, rows) + " " + nd]))
+            elif case.get("nodata") is not None:            # the attribute no_data_value is part of the model's track (simplifyN)
+                line = "C16.trkn %s %s %s" % (head, geom(case, rows), nd)
+            else:
+                line = "C16.trk %s %s" % (head, geom(case, rows))
             if algo == "dp" and len(case["xs"]) <= 9:      # the runs reachable with another choice among equally far fixes
                 return [line, "C16.dp %s %s %s" % (fbits(case["tol"]), fl(case["xs"]), fl(case["ys"]))]
             return [line]
@@ -622,6 +872,8 @@ class P(Prop):
             raise ValueError("unsupported")
         if r.startswith("err:"):
             return {"err": ERRMAP.get(r, r)}
+        if k == "trk" and case["via"] == "network":
+            r = r.split(" | ")[case.get("net_pos", 0)]      # the geometry of this case's edge
         parts = r.split(" ")
         idx = lambda s: [] if s == "_" else [int(t) for t in s.split(",")]
         kept = idx(parts[0])
@@ -630,7 +882,8 @@ class P(Prop):
             rows = [[]] * len(kept) if parts[6] == "_" else [[] if t == "_" else [bitsf(v) for v in t.split(",")] for t in parts[6].split(";")]
             out = {"kept": kept, "xyz": [[fv(case["xs"][i]), fv(case["ys"][i]), zs[i]] for i in kept], "rows": rows,
                    "names": [] if parts[4] == "_" else parts[4].split(","), "cols": idx(parts[5]),
-                   "uid": int(parts[1]), "tid": int(parts[2]), "base": None if parts[3] == "_" else int(parts[3])}
+                   "uid": int(parts[1]), "tid": int(parts[2]), "base": None if parts[3] == "_" else int(parts[3]),
+                   "nodata": None if (len(parts) < 8 or parts[7] == "_") else bitsf(parts[7])}
             if len(replies) > 1 and not replies[1].startswith("err:") and replies[1] != "bad-request":
                 out["all"] = [idx(t) for t in replies[1].split(" ")[1].split(";")]
             return out
@@ -651,10 +904,10 @@ class P(Prop):
                 return "positions differ: impl=%s model=%s" % (impl_out["xyz"], model_out["xyz"])
             if not same_rows(impl_out["rows"], model_out["rows"]):
                 return "feature rows differ: impl=%s model=%s" % (impl_out["rows"], model_out["rows"])
-            for f in ("names", "cols", "uid", "tid", "base"):
+            for f in ("names", "cols", "uid", "tid", "base", "nodata"):
                 if impl_out[f] != model_out[f]:
                     return "%s of the result: impl=%r model=%r" % (f, impl_out[f], model_out[f])
-            return None
+            return self.classes_ok(case, impl_out)
         if case["algo"] == "dp" and impl_out["kept"] in model_out.get("all", []):
             # another choice among equally far fixes (free in the property): uid/tid/base depend on the left-most piece, so only
             # their range is checked (dp_track_obs); positions and rows are the oracle's business
@@ -662,8 +915,17 @@ class P(Prop):
                 return "feature dict of a Douglas-Peucker result: impl=%r model=[]" % (impl_out["names"],)
             if (impl_out["uid"], impl_out["tid"], impl_out["base"]) not in ((case["uid"], case["tid"], case["base"]), (0, 0, None)):
                 return "uid/tid/base of the result: %r" % ((impl_out["uid"], impl_out["tid"], impl_out["base"]),)
-            return None
+            if impl_out["nodata"] is not None:
+                return "no_data_value of a Douglas-Peucker result: impl=%r model=None" % (impl_out["nodata"],)
+            return self.classes_ok(case, impl_out)
         return "kept indices: impl=%s model=%s" % (impl_out["kept"], model_out["kept"])
+
+    def classes_ok(self, case, impl_out):
+        """the positions returned are the input's objects' class (ENUCoords / GeoCoords / ECEFCoords): nothing is converted"""
+        want = {"ENU": "ENUCoords", "GEO": "GeoCoords", "ECEF": "ECEFCoords"}[case.get("coords", "ENU")]
+        if impl_out["classes"] not in ([], [want]):
+            return "class of the returned positions: %s, the input's are %s" % (impl_out["classes"], want)
+        return None
 
     def compare(self, case, impl_out, model_out):
         if case["kind"] == "trk":
@@ -681,7 +943,7 @@ class P(Prop):
             sq = parse_rat(model_out["sq"])
             if sq != seg_d2((p[0], p[1]), (p[2], p[3]), (p[4], p[5])):
                 return "the harness' oracle and the Lean specification distSegSq differ on %s: %s" % (case["p"], sq)
-            if not close(impl_out["v"], math.sqrt(sq), 1e-9, 1e-9):
+            if not near(impl_out["v"], math.sqrt(sq), dist_slack(case["p"])):
                 return "impl=%r, exact model distance %r" % (impl_out["v"], math.sqrt(sq))
         if case["kind"] in ("dist", "area"):
             return None if close(impl_out["v"], model_out["v"], 1e-12) else "impl=%r model=%r" % (impl_out["v"], model_out["v"])
@@ -702,7 +964,7 @@ class P(Prop):
                 return "distance_to_segment%s raised %s" % (tuple(case["p"]), out["err"])
             p = [F(v) for v in case["p"]]
             want = math.sqrt(seg_d2((p[0], p[1]), (p[2], p[3]), (p[4], p[5])))
-            if not close(out["v"], want, 1e-9, 1e-9):
+            if not near(out["v"], want, dist_slack(case["p"])):
                 return "distance_to_segment%s = %r, the distance to the closed segment is %r" % (tuple(case["p"]), out["v"], want)
             if (p[0], p[1]) == (p[2], p[3]) and out["v"] != 0:
                 # hypothesis of dp_total_of_self_distance on the implementation's floats: needed for termination
@@ -713,7 +975,7 @@ class P(Prop):
                 return "triangle_area raised %s" % out["err"]
             p = [F(v) for v in case["p"]]
             want = abs((p[2] - p[0]) * (p[5] - p[1]) - (p[4] - p[0]) * (p[3] - p[1])) / 2
-            if not close(out["v"], float(want), 1e-9, 1e-9):
+            if not near(out["v"], float(want), area_slack(case["p"])):
                 return "triangle_area%s = %r, expected %r" % (tuple(case["p"]), out["v"], float(want))
             return None
         if k == "mode":
@@ -751,7 +1013,7 @@ class P(Prop):
             return "%s dropped the last observation: kept %s" % (name, kept)
         if k == "trk":
             # "a subsequence of the input OBSERVATIONS": an observation is its position, its timestamp and its feature values
-            want = [[fv(v) for v in case["rows"][i]] if case["names"] else [] for i in kept]
+            want = [[fv(v) for v in case["rows"][i]] if case["names"] else [] for i in kept]      # (orphan values included)
             if not same_rows(out["rows"], want):
                 j = next(j for j in range(len(kept)) if not same_rows([out["rows"][j]], [want[j]]))
                 return "%s returned observation %d with feature values %s, the input observation has %s" % (
@@ -760,7 +1022,8 @@ class P(Prop):
                 return "%s modified its input track: %s" % (name, out["input_changed"])
         elif out.get("input_size_after") != n:
             return "%s modified its input track (size %s -> %s)" % (name, n, out.get("input_size_after"))
-        if algo == "dp":
+        if algo == "dp" and case.get("coords", "ENU") == "ENU":
+            # (the tolerance clause is about the plane of an ENU track; Geo / ECEF positions get the clauses above and the model)
             V = [(F(xs[i]), F(ys[i])) for i in kept]
             scale = max([abs(float(v)) for v in xs + ys] + [1.0])
             lim = (F(tol) * (1 + F(SLACK)) + F(ABS_SLACK) * F(scale)) ** 2
@@ -788,12 +1051,19 @@ class P(Prop):
         of TV.C16.vw_sublist_ends; such coordinates are outside the oracle's domain (> 1e100) and only produced by the `wild` stream
         (correspondence).
         'vw-user-feature-named-aire': the input track has a feature called '@aire' (the name of Visvalingam's temporary column):
-        it is overwritten in the working copy and deleted from the result (example in Props/C16.lean; outside `FreshTable`)."""
+        it is overwritten in the working copy and deleted from the result (example in Props/C16.lean; outside `FreshTable`).
+        'vw-feature-values-without-dict-entry': the observations carry more feature values than the track's dict names (a track built
+        with Track(other.getObsList()) -- in particular every Douglas-Peucker result of a track with features): createAnalyticalFeature
+        takes column len(dico) for '@aire' but appends the slot at the end of the row, so the areas overwrite the first value and
+        removeAnalyticalFeature deletes it: the observations returned have lost their first feature value and gained a trailing 0.0
+        (example in Props/C16.lean; outside `FreshTable`). Generated only when listed."""
         algo = case.get("algo") if case.get("kind") == "trk" else case.get("kind")
         if algo != "vw":
             return None
         if case.get("kind") == "trk" and "@aire" in case.get("names", []):
             return FINDING_AIRE
+        if case.get("kind") == "trk" and case.get("orphan") and case.get("names") and "feature values" in (msg or ""):
+            return FINDING_ORPHAN
         if not finite_case(case):
             return "vw-area-reaches-argmin-sentinel"
         if all(abs(fv(v)) <= 1e100 for v in case["xs"] + case["ys"]):
@@ -834,10 +1104,20 @@ class P(Prop):
                 yield dict(case, pre=[])
                 for i in range(len(case["pre"])):
                     yield dict(case, pre=case["pre"][:i] + case["pre"][i + 1:])
-            if case.get("zs"):
+            if case.get("src") == "csv":
+                yield dict(case, src="obj")
+            if case.get("coords", "ENU") != "ENU":
+                yield dict(case, coords="ENU")
+            if case.get("nodata") is not None and case.get("src") != "csv":
+                yield dict(case, nodata=None)
+            if case.get("zs") and not (case.get("src") == "csv" and any(z == case.get("nodata") for z in case["zs"])):
                 yield dict(case, zs=None)
             if case.get("ts"):
                 yield dict(case, ts=None)
+            if case.get("orphan"):
+                yield dict(case, orphan=False)
+            if case.get("tol_form"):
+                yield dict(case, tol_form=None)
             if len(case["names"]) > 1:
                 yield dict(case, names=case["names"][:1], rows=[r[:1] for r in case["rows"]])
             if case["names"] and not case.get("ts"):
@@ -873,10 +1153,27 @@ class P(Prop):
                 yield dict(case, tol=t)
         if n == 0:
             return
+        if case.get("nodata") is None and case.get("src") != "csv":
+            for sc in (1e-5, 1e-4, 1e-3):                    # the same track in small units, tolerance scaled with it
+                t = case["tol"] * sc
+                if math.isfinite(t) and t > 0:
+                    yield dict(case, xs=[fv(x) * sc for x in case["xs"]], ys=[fv(y) * sc for y in case["ys"]], tol=t)
+        if case["kind"] == "trk" and case.get("src") != "csv":
+            nd = case.get("nodata", -999999)
+            if nd is not None and case["via"] != "direct":
+                zs = list(case.get("zs") or [0] * n)          # a reader's placeholder as first / last fix
+                for i in (0, n - 1):
+                    xs, ys, z2 = list(case["xs"]), list(case["ys"]), list(zs)
+                    xs[i] = ys[i] = z2[i] = nd
+                    yield dict(case, xs=xs, ys=ys, zs=z2, nodata=nd)
         for _ in range(6):
             i = rng.randrange(n)
             xs, ys = list(case["xs"]), list(case["ys"])
-            xs[i] += rng.choice([-1, 1]); ys[i] += rng.choice([-1, 0, 1])
+            step = 1
+            ds = [abs(fv(a) - fv(b)) for a, b in zip(xs, xs[1:]) if a != b]
+            if ds and min(ds) < 1e-2:
+                step = min(ds)
+            xs[i] += rng.choice([-1, 1]) * step; ys[i] += rng.choice([-1, 0, 1]) * step
             yield dict(case, xs=xs, ys=ys)
         if n >= 2 and case["kind"] != "trk":
             yield dict(case, xs=case["xs"] + [case["xs"][0]], ys=case["ys"] + [case["ys"][0]])
